@@ -1,4 +1,5 @@
 import MlModel.Lemmas.Piter2Anat
+import MlModel.Lemmas.Piter2Final
 /-!
 # Two-queue LTS: a failure of the OUTPUT queue reaches the caller (package C13D4)
 
@@ -158,5 +159,193 @@ theorem s2_frame {c c' : Cfg} {tid : Tid} {alt : Bool} {lbl : String} (hg : Good
       · exact (hcount g1 g2 g3 (by simp [pastT, hpp.1, hp])).elim
       · show s2'.exc = none
         rw [e2 hm hp h2]; exact g2
+
+
+theorem fst_begin {c : Cfg} {t : Th} {s : Shared} (hf : t.early = false → FSt s t)
+    (he : (beginIter c t).early = false) : FSt s (beginIter c t) := by
+  unfold beginIter at he ⊢
+  split
+  · rename_i h; simp [h] at he
+  · rename_i h
+    simp only [h] at he
+    have f := hf he
+    exact ⟨f.nostop, f.kind, by simp, by simp, fun ha => by simp [armedX] at ha, fun hc => by simp at hc⟩
+
+/-- a step of the caller's iteration over the output queue -/
+theorem fst_iter {c : Cfg} {t : Th} {alt : Bool} {l : String} {s2' : Shared} {b' : Queue.Thread}
+    (htok : TOK t.b) (hto : c.s2.timeout = false)
+    (hne : t.b.pc ≠ .mAcq ∧ t.b.pc ≠ .pRaiseT ∧ t.b.pc ≠ .eNext) (hcpc : t.cpc = .iter)
+    (hst : stepThread c.s2 t.b 0 alt = some (l, s2', b')) (f : FSt c.s2 t)
+    (hA : armedX (afterIter c t.b.pc s2' { t with b := b' }).2.b = true →
+      (afterIter c t.b.pc s2' { t with b := b' }).1.exhausted = true)
+    (he : (afterIter c t.b.pc s2' { t with b := b' }).2.early = false) :
+    FSt (afterIter c t.b.pc s2' { t with b := b' }).1 (afterIter c t.b.pc s2' { t with b := b' }).2 := by
+  obtain ⟨e1, e2⟩ := stepThread_exc l s2' b' hst
+  have hsr : s2'.stopRequested = false := by rw [e1 hne.1]; exact f.nostop
+  have hex : s2'.exc = c.s2.exc := e2 hne.1 hne.2.1 hne.2.2
+  have hmono : ∀ r, OKR c.s2 r → OKR s2' r := fun r o =>
+    ⟨o.1, fun hr => ⟨by rw [hex]; exact (o.2 hr).1, (sticky_of_stepThread hst).2.2 (o.2 hr).2⟩⟩
+  have hprog := stepThread_prog hst
+  obtain ⟨-, -, -, c4, -, c6, -⟩ := stepThread_close l s2' b' hst htok hto
+  rcases afterIter_cases c t.b.pc s2' { t with b := b' } with ⟨hb, e⟩ | e | ⟨hb, e⟩
+  · rw [e]
+    obtain ⟨d1, d2⟩ := c6 hb
+    refine ⟨hsr, ?_, by simp, by simp, fun ha => ?_,
+      fun _ => ⟨t.b.x, d2, hmono _ (f.armed (by simp [armedX, hb]))⟩⟩
+    · show b'.prog.kind = _
+      rw [hprog]; exact f.kind
+    · exfalso
+      simp [armedX, d1] at ha
+  · rw [e] at he; cases he
+  · rw [e] at hA ⊢
+    refine ⟨hsr, ?_, ?_, ?_, fun ha => ?_, fun hc => ?_⟩
+    · show b'.prog.kind = _
+      rw [hprog]; exact f.kind
+    · show t.cpc ≠ _
+      rw [hcpc]; simp
+    · show t.cpc ≠ _
+      rw [hcpc]; simp
+    · show OKR s2' b'.x
+      rcases c4 ha with ⟨h1, h2⟩ | h2
+      · rw [h2]; exact hmono _ (f.armed h1)
+      · rw [h2]
+        refine ⟨final_ne_empty _, fun hr => ⟨?_, hA ha⟩⟩
+        rw [final_isErr] at hr
+        cases hx : s2'.exc with
+        | none => rfl
+        | some _ => simp [hx] at hr
+    · exfalso
+      have hc' : t.cpc = .shutdown ∨ t.cpc = .fin := hc
+      rw [hcpc] at hc'
+      rcases hc' with hc' | hc' <;> cases hc'
+
+set_option maxHeartbeats 400000 in
+/-- `FS` is inductive (the successor's `Good` supplies `armed ⇒ exhausted` for the caller's new program point) -/
+theorem fs_step {c c' : Cfg} {tid : Tid} {alt : Bool} {lbl : String} (hg : Good c) (hg' : Good c')
+    (h : step F c tid alt = some (lbl, c')) (hfs : FS c) : FS c' := by
+  intro t0' ht0' hearly
+  by_cases h0 : tid = 0
+  · subst h0
+    obtain ⟨t, -, ht, -, -⟩ := step_set h
+    have hr : t.role = .cons := (hg.inv.role0 0 t ht).mpr rfl
+    have hlt : 0 < c.ths.length := (List.getElem?_eq_some_iff.mp ht).1
+    have ext : ∀ {u : Th} {c'' : Cfg}, c''.ths = c.ths.set 0 u → c''.ths[0]? = some t0' → t0' = u := by
+      intro u c'' e1 e2
+      rw [e1] at e2
+      simpa [hlt] using e2.symm
+    have hxok' : armedX t0'.b = true → c'.s2.exhausted = true := by
+      intro ha
+      have hr' : t0'.role = .cons := (hg'.inv.role0 0 t0' ht0').mpr rfl
+      have hq := q2_get ht0'
+      rw [v2_cons hr'] at hq
+      rcases (hg'.live2.base.xok t0'.b (List.mem_of_getElem? hq)).2.2.2.2.1 (armedX_armed _ ha) with h | h
+      · exact h
+      · have h' : c'.s2.timeout = true := h
+        rw [hg'.inv.to2] at h'; cases h'
+    have hti := hg.inv.ti t (List.mem_of_getElem? ht)
+    have hs : stepCons c 0 t alt = some (lbl, c') := by simpa [step, ht, hr] using h
+    unfold stepCons at hs
+    split at hs
+    · simp at hs
+    · -- boot
+      (repeat' split at hs) <;> simp only [Option.some.injEq, Prod.mk.injEq, reduceCtorEq] at hs <;>
+        obtain ⟨-, rfl⟩ := hs
+      · have e := ext rfl ht0'
+        subst e
+        exact fst_begin (hfs t ht) hearly
+      · have e := ext rfl ht0'
+        subst e
+        have f := hfs t ht hearly
+        exact ⟨f.nostop, f.kind, by simp, by simp, f.armed, fun hc => by simp at hc⟩
+    · -- submit
+      rename_i hcpc
+      split at hs
+      · simp at hs
+      simp only [Option.some.injEq, Prod.mk.injEq] at hs
+      obtain ⟨-, rfl⟩ := hs
+      have e := ext rfl ht0'
+      subst e
+      split
+      · rename_i hge
+        simp only [hge, if_true] at hearly
+        exact fst_begin (hfs t ht) hearly
+      · rename_i hge
+        simp only [hge, if_false] at hearly
+        exact hfs t ht hearly
+    · -- iter
+      rename_i hcpc
+      split at hs
+      · simp at hs
+      · rename_i l s2' b' hst
+        simp only [Option.some.injEq, Prod.mk.injEq] at hs
+        obtain ⟨-, rfl⟩ := hs
+        have e := ext rfl ht0'
+        subst e
+        have hq2 := q2_get ht
+        rw [v2_cons hr] at hq2
+        have htok := hg.live2.base.tok t.b (List.mem_of_getElem? hq2)
+        have hk : t.b.prog.kind = .batch := by unfold TI at hti; simp only [hr, hcpc] at hti; exact hti.2.2.1
+        have hne : t.b.pc ≠ .mAcq ∧ t.b.pc ≠ .pRaiseT ∧ t.b.pc ≠ .eNext := by
+          refine ⟨fun e => ?_, fun e => ?_, fun e => ?_⟩ <;>
+            · have := htok.kind _ (by rw [e]; rfl); rw [hk] at this; cases this
+        have hearly0 : t.early = false := by
+          cases he : t.early with
+          | false => rfl
+          | true =>
+            exfalso
+            have : (afterIter c t.b.pc s2' { t with b := b' }).2.early = true := by
+              unfold afterIter; (repeat' split) <;> simp [he]
+            rw [this] at hearly; cases hearly
+        exact fst_iter htok hg.inv.to2 hne hcpc hst (hfs t ht hearly0) hxok' hearly
+    · -- stopping
+      rename_i hcpc
+      split at hs
+      · simp at hs
+      · simp only [Option.some.injEq, Prod.mk.injEq] at hs
+        obtain ⟨-, rfl⟩ := hs
+        have e := ext rfl ht0'
+        subst e
+        have he : t.early = false := by
+          rw [← hearly]; (repeat' split) <;> rfl
+        exact absurd hcpc (hfs t ht he).c1
+    · -- upstop
+      rename_i hcpc
+      split at hs
+      · simp at hs
+      · simp only [Option.some.injEq, Prod.mk.injEq] at hs
+        obtain ⟨-, rfl⟩ := hs
+        have e := ext rfl ht0'
+        subst e
+        exact absurd hcpc (hfs t ht hearly).c2
+    · -- shutdown
+      rename_i hcpc
+      (repeat' split at hs) <;> simp only [Option.some.injEq, Prod.mk.injEq, reduceCtorEq] at hs
+      obtain ⟨-, rfl⟩ := hs
+      have e := ext rfl ht0'
+      subst e
+      have f := hfs t ht hearly
+      exact ⟨f.nostop, f.kind, by simp, by simp, f.armed, fun _ => f.out (.inl hcpc)⟩
+  · obtain ⟨t, t', ht, hths, -⟩ := step_set h
+    have ht0 : c.ths[0]? = some t0' := by
+      rw [hths, List.getElem?_set_ne h0] at ht0'; exact ht0'
+    have f := hfs t0' ht0 hearly
+    obtain ⟨r1, r2, r3⟩ := s2_frame hg h (fun u hu hur => absurd ((hg.inv.role0 tid u hu).mp hur) h0)
+    have hmono : ∀ r, OKR c.s2 r → OKR c'.s2 r := fun r o =>
+      ⟨o.1, fun hr => ⟨r3 f.nostop (o.2 hr).1 (o.2 hr).2, r2 (o.2 hr).2⟩⟩
+    exact ⟨by rw [r1]; exact f.nostop, f.kind, f.c1, f.c2, fun ha => hmono _ (f.armed ha),
+      fun hc => let ⟨r, e, o⟩ := f.out hc; ⟨r, e, hmono _ o⟩⟩
+
+theorem fs_init (cap1 cap2 bm1 bm2 mw : Nat) (ns : Option Nat) (fwd ff : Bool) (inputs : List InSpec)
+    (gens : List Nat) : FS (initF cap1 cap2 bm1 bm2 mw ns fwd ff inputs gens) := by
+  intro t0 ht0 _
+  simp only [initF, init, List.getElem?_cons_zero, Option.some.injEq] at ht0
+  subst ht0
+  exact ⟨rfl, rfl, by simp [mkCons], by simp [mkCons], fun ha => by simp [mkCons, armedX] at ha,
+    fun hc => by simp [mkCons] at hc⟩
+
+theorem fs_reachable {c0 c : Cfg} (h0 : Good c0) (hf : FS c0) (h : Reachable F c0 c) : FS c := by
+  induction h with
+  | init => exact hf
+  | step hr hs ih => exact fs_step (good_reachable h0 hr) (good_reachable h0 (.step hr hs)) hs ih
 
 end MlModel.Piter2
